@@ -57,6 +57,18 @@ def run(ck):
         expect_err(S.cmd("verify", "k" + cn, "pA", "="), f"proof for A under the verifier of a near-miss circuit: {nm}", "near-miss")
         S.cmd("prove", "p" + cn, "k" + cn, cn, 10)
         expect_err(S.cmd("verify", "kA", "p" + cn, "="), f"proof of the near-miss circuit ({nm}) under A's verifier", "near-miss")
+    # circuits with identical gates that differ in HOW MANY rows are declared public, the extra row carrying 0:
+    # proofs of one under the verifier of the other with the vector extended / cut by that zero, in both directions,
+    # and with the zero inserted in front (the count of declared rows is bound through the transcript)
+    pvz = rng.scalar()
+    zI = ["w 5", "w 7", f"pub {hx(pvz)}", "gmul 1 0 0 0 0 0 - $0 $1 0 0", "w 0", "aeqc $4 0 -"]
+    zIJ = ["w 5", "w 7", f"pub {hx(pvz)}", "gmul 1 0 0 0 0 0 - $0 $1 0 0", "pub 0", "w 0"]
+    zHI = ["w 5", "w 7", "w 0", "aeqc $2 0 -", "gmul 1 0 0 0 0 0 - $0 $1 0 0", f"pub {hx(pvz)}"]
+    for nm_, body_ in (("ZI", zI), ("ZIJ", zIJ)):
+        S.circuit(nm_, body_); S.cmd("compile", "k" + nm_, "pp", "6c6162656c", nm_); S.cmd("prove", "p" + nm_, "k" + nm_, nm_, 14)
+    expect_err(S.cmd("verify", "kZIJ", "pZI", pis([pvz, 0])), "proof for public rows {I} under the verifier for rows {I,J} with the vector extended by the zero of row J", "pi-rows")
+    expect_err(S.cmd("verify", "kZI", "pZIJ", pis([pvz])), "proof for public rows {I,J} (J carrying 0) under the verifier for rows {I} with the zero dropped", "pi-rows")
+    expect_err(S.cmd("verify", "kZIJ", "pZI", pis([0, pvz])), "proof for rows {I} under the verifier for {I,J} with a zero put in front", "pi-rows")
     # labels: one byte, length, empty, prefixes in both orders of first use
     labels = ["6c6162656c", "6c6162656d", "6c616265", "6c6162656c00", "-", "6c6162656c2d76310a"[:-2], "6c6162656c2d763130", "6c6162656c2d7631"]
     # keys for labels are compiled in an order that puts the LONGER label first (cache order matters)
@@ -142,7 +154,7 @@ def run(ck):
     if r2[x12].startswith("OK"):
         ck.violation("accepted although the circuits differ: the only public input (value 0) sits on a different row", {"failing_input_found": True, "circuit_proved": z1, "circuit_of_verifier": z2}, key="accepted:zero-pi-row-moved")
     return ck.finish(level="proof",
-        rule="one valid proof with 5 public inputs (one zero): every position x {+1, 0, another position's value}, adjacent transpositions, truncation/extension; near-miss circuits (one selector value, one wire, one constraint more/fewer, one public-input row moved or removed) in both directions; labels differing in one byte or in length, empty, 33..100-byte labels differing only after a common prefix of 32..70 bytes, and prefix pairs with the longer label used first (also through a decoded verifier); V3 proofs under V1/V2, proving under V1/V2; checked build, catch_unwind",
+        rule="one valid proof with 5 public inputs (one zero): every position x {+1, 0, another position's value}, adjacent transpositions, truncation/extension; near-miss circuits (one selector value, one wire, one constraint more/fewer, one public-input row moved or removed; one zero-valued public row more / fewer with the vector adjusted) in both directions; labels differing in one byte or in length, empty, 33..100-byte labels differing only after a common prefix of 32..70 bytes, and prefix pairs with the longer label used first (also through a decoded verifier); V3 proofs under V1/V2, proving under V1/V2; checked build, catch_unwind",
         assumptions=["acceptance of a mismatched statement needs a Keccak coincidence or one of <= 5n+6 bad evaluation points (C03/C05 theorems); here every explored mismatch must be rejected"],
         checker_cmd=proofgate.CHECKER_CMD, trusted_base=proofgate.TRUSTED)
 
